@@ -417,7 +417,7 @@ def abstract_dead_cells(m, st):
     for _, v in walk_state_values(st):
         map_value(v, direct)
     if st.mon is not None:
-        for c in st.mon.cells():
+        for c in st.mon.live_cells():
             live.add(c)
     for (e, lane, cst, t) in st.wfacts:
         map_wexpr(e, direct)
@@ -640,9 +640,23 @@ def canonicalise(m, st):
     live_set = set(live_cells) | set(st.tape)
     if st.mon is not None:
         live_set |= set(st.mon.cells())
-    # SWAR facts only matter while a cell of their block can still be looked at
+    # SWAR facts only matter while a word value over their block is still alive (the per-byte
+    # projections have already been applied to the cells)
     from .lanes import leaf_of
-    st.wfacts = [wf for wf in st.wfacts if any(x[0] == "cell" and x[1] in live_set for x in leaf_of(wf[0])[1])]
+    wcells = set()
+
+    def wordcells(v):
+        if v[0] in ("word", "wlane", "wtest"):
+            lf = leaf_of(v[1])
+            if lf is not None:
+                for x in lf[1]:
+                    if x[0] == "cell":
+                        wcells.add(x[1])
+        return None
+
+    for _, v in walk_state_values(st):
+        map_value(v, wordcells)
+    st.wfacts = [wf for wf in st.wfacts if any(x[0] == "cell" and x[1] in wcells for x in leaf_of(wf[0])[1])]
     for wf in st.wfacts:
         for x in leaf_of(wf[0])[1]:
             if x[0] == "cell":
@@ -981,6 +995,8 @@ class Explorer:
                         if ok is False:
                             continue
                         s2.trace.append(label)
+                        if len(s2.trace) > 48:
+                            del s2.trace[:-32]
                         work.append(s2)
                     break
                 except Violation:
